@@ -32,7 +32,8 @@ LEVEL_TEXT = ("Emitters are enumerated by introspection of the package; each is 
               "same kind with type-strictly equal id, method, params, result and error. Wire forms are captured at the stdio "
               "child's stdin and at the HTTP/SSE POST bodies."
               ' Also envelope classes instantiated directly (relying on declared defaults) through every wire form.'
-              ' Also whatever the server handler answers to id-less messages.')
+              ' Also whatever the server handler answers to id-less messages.'
+              ' Also two requests built from one params dict with their own progress tokens, and error objects that are not error objects given to every constructor (refused or emitted valid).')
 LEVEL_NOTE = ("Trusted: vf/ref.py validator; emitters that could not be driven are listed in evidence. id:null is tolerated "
               "only on the batch-rejection error (request id undeterminable).")
 RULE = ("case = (emitter, payload, id). Non-trivial: payload or id is not the trivial default; distinct = hash(emitter, "
